@@ -101,7 +101,19 @@ def axis_term(v):
 
 
 def make_where(c, a, b):
-    return op("where", to_term(c), to_term(a), to_term(b))
+    c, a, b = to_term(c), to_term(a), to_term(b)
+    # where(isnan(x), v, x) with a number v replaces the missing values of x: x.fillna(v)
+    if fname(c) in ("isnull", "isnan") and len(c.args) == 1 and c.args[0] == b and a.is_number:
+        return op("fillna", b, a)
+    return op("where", c, a, b)
+
+
+def axis_of_dim(ax):
+    """the dimension name when `ax` is the axis number looked up for a named dimension (get_axis_num), else None"""
+    ax = to_term(ax)
+    if isinstance(ax, sp.Tuple) and len(ax.args) == 2 and ax.args[0] == Str("axis"):
+        ax = ax.args[1]
+    return ax.args[0] if fname(ax) == "axis_of" and len(ax.args) == 1 else None
 
 
 def make_trapz(y, xcoord=None, axis=None, dx=None):
@@ -327,6 +339,8 @@ def call_numpy(it, tail, args, kwargs, env, node, chain):
                 "nanmin", "argmax", "argmin", "prod", "cumsum", "any", "all", "median"):
         nm = {"amax": "max", "amin": "min"}.get(tail, tail)
         axis = a[1] if len(a) > 1 else kw(kwargs, "axis")
+        if axis is not None and axis_of_dim(axis) is not None:
+            axis = axis_of_dim(axis)        # the axis number of a named dimension is that dimension
         return op(nm, t[0], axis_term(axis))
     if tail == "diff":
         app, pre = to_term(kw(kwargs, "append")), to_term(kw(kwargs, "prepend"))
@@ -340,6 +354,14 @@ def call_numpy(it, tail, args, kwargs, env, node, chain):
         numv = a[2] if len(a) > 2 else kw(kwargs, "num", num(50))
         endpoint = kw(kwargs, "endpoint", True)
         return op("linspace", t[0], t[1], to_term(numv), to_term(endpoint))
+    if tail == "take_along_axis" and len(a) >= 2:
+        # values picked at one index per remaining position along a named axis: x.isel({dim: index}) (the kept unit axis is
+        # dropped by the caller; unit axes are not tracked)
+        ax = a[2] if len(a) > 2 else kw(kwargs, "axis")
+        ix = to_term(a[1])
+        d = axis_of_dim(ax) if ax is not None else None
+        if d is not None and fname(ix) == "expand_dims" and len(ix.args) == 2 and axis_of_dim(ix.args[1]) == d:
+            return op("isel", t[0], d, canon_index(ix.args[0]))
     if tail == "expand_dims" and len(t) >= 2:
         return op("expand_dims", t[0], t[1])
     if tail == "fft.rfftfreq":
@@ -515,7 +537,7 @@ def call_xarray(it, tail, args, kwargs, env, node, chain):
 
 # ============================================================================ terms: attributes / methods
 TERM_METHODS = {
-    "isel", "sel", "fillna", "integrate", "sum", "mean", "std", "argmax", "argmin", "max", "min", "where",
+    "isel", "sel", "fillna", "get_axis_num", "integrate", "sum", "mean", "std", "argmax", "argmin", "max", "min", "where",
     "isnull", "notnull", "all", "any", "cumsum", "diff", "differentiate", "reshape", "cumulative_integrate",
     "uniform", "normal", "random", "interp", "dot", "assign", "keys", "items", "to_netcdf", "to_dataframe",
     "to_array", "index", "update", "get", "replace", "astimezone", "timestamp", "strftime", "lower", "upper",
@@ -616,6 +638,8 @@ def call_term_method(it, recv, name, args, kwargs, env, node):
                 and hasattr(it, "type_hints") and recv not in it.type_hints:
             it.type_hints[recv] = "numbers.Number"      # a time stamp cast to floating point seconds is a plain number from here on
         return recv
+    if name == "get_axis_num" and len(t) == 1 and T.is_str_symbol(t[0]):
+        return op("axis_of", t[0])
     if name == "fillna":
         v = args[0] if args else kw(kwargs, "value", num(0))
         return op("fillna", recv, to_term(v))
